@@ -78,6 +78,27 @@ pub fn run(a: &Args) {
             out.emit(e);
         }
     }
+    // names nested one label deeper each time (a, b.a, c.b.a, ...) sent uncompressed: the compressed
+    // re-serialisation writes each as "label + pointer to the previous one", a chain as deep as the name has labels
+    for depth in [8usize, 64, 65, 100, 126] {
+        let mut m = vec![0u8, 7, 0x80, 0];
+        m.extend([0, 0]);
+        m.extend((depth as u16).to_be_bytes());
+        m.extend([0, 0, 0, 0]);
+        for d in 1..=depth {
+            for k in (0..d).rev() {
+                m.push(1);
+                m.push(b'a' + (k % 26) as u8);
+            }
+            m.push(0);
+            m.extend([0, 1, 0, 1, 0, 0, 0, 9, 0, 4, 10, 0, (d >> 8) as u8, d as u8]);
+        }
+        if let Some(e) = reparse_event(&format!("reparse nested-names depth={depth}"), &m) {
+            st.case(&m, true);
+            accepted += 1;
+            out.emit(e);
+        }
+    }
     st.counters.insert("accepted_mutants".into(), accepted);
     // every header word: parse -> rebuild -> what the second parse would observe (HdrReparse rule)
     crate::hdr::emit_words(&mut out, &mut st, &[(0x4321, [1, 1, 0, 1])]);
